@@ -44,6 +44,14 @@ mkcounts (void)
   };
   for (unsigned i = 0; i < sizeof sp / sizeof *sp; i++)
     addc (sp[i]);
+  /* every in-range and just-out-of-range small value again above each width a narrower integer type would truncate to:
+     2^8, 2^16, 2^31, 2^32, 2^33, 2^48 and 2^63 plus 0..40 */
+  {
+    static const int widths[] = { 8, 16, 31, 32, 33, 48, 63 };
+    for (unsigned w = 0; w < sizeof widths / sizeof *widths; w++)
+      for (unsigned long c = 0; c <= 40; c++)
+        addc ((1UL << widths[w]) + c);
+  }
   if (vh_thorough)
     {
       /* every count up to 1100 and around the sha-crypt default, and 2000 counter-derived 64-bit values */
